@@ -92,6 +92,8 @@ package swarm
 //@ ensures result == network.Limited ==> exists i int :: 0 <= i && i < len(s.conns.m[p]) && s.conns.m[p][i].stat.Limited
 //@ ensures result == network.Connected || result == network.Limited || result == network.NotConnected
 //@ ensures len(s.conns.m[p]) == 0 ==> result == network.NotConnected
+// a connection that is already closed never makes the peer Connected: the connection that decided was asked first
+//@ ensures result == network.Connected ==> called(IsClosed, 0) && !ret(IsClosed, 0, 0) && !arg(IsClosed, 0, 0).stat.Limited
 //@ modifies nothing
 
 //@ func (c *Conn) NewStream
